@@ -145,8 +145,9 @@ func genInvocation(c *Chooser) invocation {
 
 // withNS gives every array member that carries an "id" a second identity key
 // "ns", a function of the id alone (so a member keeps it through a lineage):
-// ordinals 1 and 2, 3 and 4, ... point at each other, so the members 1 and 2
-// of one array hold the same two values under exchanged keys.
+// ordinals 1 and 2, 4 and 5, ... point at each other, so the members 1 and 2
+// of one array hold the same two values under exchanged keys; members 0, 3, ...
+// hold one value under both keys.
 func withNS(v *Val) *Val {
 	if v == nil {
 		return nil
@@ -166,8 +167,9 @@ func withNS(v *Val) *Val {
 			}
 			o := ordinalOf(id)
 			switch {
-			case o <= 0:
-			case o%2 == 1:
+			case o < 0 || o%3 == 0:
+				// 0, 3, 6 ...: the same value under both keys
+			case o%3 == 1:
 				o++
 			default:
 				o--
